@@ -194,9 +194,13 @@ func (x *c03) stalledSend(kind, trigger string, big bool) {
 	if cleanup != nil {
 		defer cleanup()
 	}
-	if err != nil {
+	unavailable := func(what string) {
+		// net.Pipe needs no network: if the pair does not work, the library's own path is what failed
 		c.Stat("stall_unavailable", 1)
-		c.Sample("stalled-send pair " + kind + " unavailable: " + err.Error())
+		c.Emit("direct c19_carrier_available %d FAIL %s pair over net.Pipe: %s", n, kind, what)
+	}
+	if err != nil {
+		unavailable(err.Error())
 		return
 	}
 	var fails []string
@@ -205,15 +209,21 @@ func (x *c03) stalledSend(kind, trigger string, big bool) {
 		c.Emit("direct %s %d FAIL %s carrier, Send stalled in the carrier write, then %s: %s", clause, n, kind, trigger, fmt.Sprintf(format, a...))
 	}
 	// sanity: the link works in both directions
+	recvType := func(from transport.Conn, want packet.Type) bool {
+		var p packet.Generic
+		_, w := bounded(stallLimit, func() error { var e error; p, e = from.Receive(); return e })
+		r := w()
+		return r.returned && r.panicked == nil && r.err == nil && p != nil && p.Type() == want
+	}
 	_, w1 := bounded(stallLimit, func() error { return conn.Send(&packet.Pingreq{}, false) })
-	if p, e := peer.Receive(); e != nil || p.Type() != packet.PINGREQ {
-		c.Stat("stall_unavailable", 1)
+	if !recvType(peer, packet.PINGREQ) {
+		unavailable("a PINGREQ sent right after the connection was made did not arrive")
 		return
 	}
 	w1()
 	_, w2 := bounded(stallLimit, func() error { return peer.Send(&packet.Pingresp{}, false) })
-	if p, e := conn.Receive(); e != nil || p.Type() != packet.PINGRESP {
-		c.Stat("stall_unavailable", 1)
+	if !recvType(conn, packet.PINGRESP) {
+		unavailable("a PINGRESP sent back did not arrive")
 		return
 	}
 	w2()
@@ -227,13 +237,12 @@ func (x *c03) stalledSend(kind, trigger string, big bool) {
 	select {
 	case <-gate.entered:
 	case <-time.After(stallLimit):
-		c.Stat("stall_unavailable", 1)
+		unavailable("a flushed Send never reached the carrier write")
 		return
 	}
 	select {
 	case r := <-sendCh:
-		c.Sample(fmt.Sprintf("stall %s: the Send was expected to be stuck but returned %v", kind, r.err))
-		c.Stat("stall_unavailable", 1)
+		unavailable(fmt.Sprintf("a flushed Send returned (%v) although the peer does not read", r.err))
 		return
 	case <-time.After(15 * time.Millisecond):
 	}
@@ -341,7 +350,86 @@ func (x *c03) stalledSend(kind, trigger string, big bool) {
 	c.Stat("stalled_send_"+kind, 1)
 }
 
+// timeoutRearmed: the read timeout bounds the time BETWEEN packets.  Packets arrive every `gap`
+// for several times the timeout: none of the Receives may fail; then nothing arrives and Receive
+// must fail within the bound.  A timeout error counts against the implementation only if the
+// previous packet had arrived less than 0.8 x timeout before (a slow machine cannot fake it).
+func (x *c03) timeoutRearmed(kind string) {
+	x.n++
+	n := x.n
+	c := x.c
+	c.Emit("case %d rearm kind=%s", n, kind)
+	const timeout = 150 * time.Millisecond
+	const gap = 30 * time.Millisecond
+	const count = 8
+	for attempt := 0; attempt < 3; attempt++ {
+		conn, peer, _, _, cleanup, err := pipePair(kind)
+		if err != nil {
+			if cleanup != nil {
+				cleanup()
+			}
+			c.Emit("direct c19_carrier_available %d FAIL %s pair over net.Pipe: %v", n, kind, err)
+			return
+		}
+		conn.SetReadTimeout(timeout)
+		go func() {
+			defer recoverNote()
+			for i := 0; i < count; i++ {
+				time.Sleep(gap)
+				if peer.Send(senderPacket(0, i, 3), false) != nil {
+					return
+				}
+			}
+		}()
+		last := time.Now()
+		verdict, inconclusive := "", false
+		for i := 0; i < count && verdict == "" && !inconclusive; i++ {
+			var p packet.Generic
+			_, w := bounded(stallLimit, func() error { var e error; p, e = conn.Receive(); return e })
+			r := w()
+			since := time.Since(last)
+			switch {
+			case r.panicked != nil:
+				verdict = fmt.Sprintf("Receive panicked: %v", r.panicked)
+			case !r.returned:
+				verdict = fmt.Sprintf("Receive %d blocked although packets arrive every %s", i, gap)
+			case r.err != nil && since < timeout*8/10:
+				verdict = fmt.Sprintf("Receive %d failed (%v) %s after the previous packet although the read timeout is %s: the deadline is not re-armed after each packet", i, r.err, since.Round(time.Millisecond), timeout)
+			case r.err != nil:
+				inconclusive = true // the harness itself was too slow
+			case p == nil:
+				verdict = "Receive returned neither packet nor error"
+			}
+			last = time.Now()
+		}
+		if verdict == "" && !inconclusive {
+			// silence: now the timeout must fire
+			_, w := bounded(stallLimit, func() error { _, e := conn.Receive(); return e })
+			r := w()
+			if !r.returned {
+				verdict = fmt.Sprintf("no packet for %s and Receive still blocks: the read timeout of %s never fires", stallLimit, timeout)
+			} else if r.err == nil && r.panicked == nil {
+				verdict = "Receive returned a packet nobody sent"
+			}
+		}
+		cleanup()
+		if inconclusive {
+			continue
+		}
+		if verdict != "" {
+			c.Emit("direct c19_timeout_rearmed %d FAIL %s carrier: %s", n, kind, verdict)
+		} else {
+			c.Emit("direct c19_timeout_rearmed %d ok", n)
+		}
+		c.Stat("timeout_rearmed_checks", 1)
+		return
+	}
+	c.Stat("timeout_rearmed_inconclusive", 1)
+}
+
 func (x *c03) stalledSendCases() {
+	x.timeoutRearmed("ws")
+	x.timeoutRearmed("tcp")
 	for _, kind := range []string{"ws", "tcp"} {
 		for _, trigger := range []string{"expiry", "garbage", "close"} {
 			for _, big := range []bool{false, true} {
